@@ -11,6 +11,8 @@
 #include <sys/eventfd.h>
 #include <qb/qbdefs.h>
 #include <qb/qbloop.h>
+#include <qb/qblist.h>
+#include "loop_int.h"   /* structural audit of the dispatch queues (todo counters vs list lengths) */
 
 enum { M_LEDGER, M_TIMERS, M_FAIR };
 static int mode;
@@ -76,7 +78,7 @@ static long n_readd_in_retire;
 static void job_cb(void *data)
 {
 	int i = reg_of(data, "job"); if (i < 0) return;
-	n_cb[K_JOB]++;
+	n_cb[K_JOB]++; if (getenv("VP_TRACE2")) fprintf(stderr, "it%ld CB job prio%d\n", iter, R[i].prio);
 	if (R[i].state != ST_LIVE) { vp_violation(R[i].state == ST_FIRED ? "loop:job-ran-twice" : "loop:job-ran-after-delete", "job reg#%d state=%d", i, R[i].state); return; }
 	/* FIFO within a priority: every earlier added job of the same priority is done or deleted */
 	for (int k = 0; k < nR; k++) if (R[k].kind == K_JOB && R[k].prio == R[i].prio && R[k].state == ST_LIVE && R[k].seq < R[i].seq) {
@@ -115,7 +117,7 @@ static int32_t fd_cb(int32_t fd, int32_t revents, void *data)
 {
 	(void)revents;
 	int i = reg_of(data, "fd"); if (i < 0) return 0;
-	n_cb[K_FD]++;
+	n_cb[K_FD]++; if (getenv("VP_TRACE2")) fprintf(stderr, "it%ld CB fd prio%d reg%d mode%d disp%d\n", iter, R[i].prio, i, R[i].fd_mode, R[i].fd_dispatches);
 	if (R[i].state != ST_LIVE) { vp_violation("loop:fd-callback-after-removal", "fd reg#%d (fd %d) state=%d", i, fd, R[i].state); return 0; }
 	if (R[i].fd != fd) vp_violation("loop:fd-callback-wrong-fd", "reg#%d expects fd %d got %d", i, R[i].fd, fd);
 	R[i].fd_dispatches++;
@@ -267,12 +269,20 @@ static void op_timer_query(void)
 		else if (rem > R[i].hi - vnow + 1000) vp_violation("loop:time-remaining-too-large", "reg#%d remaining %llu, at most %llu", i, (unsigned long long)rem, (unsigned long long)(R[i].hi - vnow));
 	}
 }
+static long n_mod_then_del;
 static void op_mod_fd(void)
 {
 	int i = pick(K_FD, ST_LIVE); if (i < 0) return;
 	int np = (int)vp_u(&rng, 3);
 	int rc = qb_loop_poll_mod(L, (enum qb_loop_priority)np, R[i].fd, POLLIN, R[i].ud, fd_cb);
 	if (rc == 0) R[i].prio = np; else vp_violation("loop:poll-mod-failed", "fd %d rc=%d", R[i].fd, rc);
+	/* ... and now and then the descriptor is deleted right away: if it was queued for dispatch when its priority changed,
+	 * the delete has to take it out of the right queue (the dispatch-queue audit in the wrapped epoll_wait looks at that) */
+	if (rc == 0 && vp_chance(&rng, 1, 3)) {
+		int rd = qb_loop_poll_del(L, R[i].fd); n_mod_then_del++;
+		if (rd == 0) { R[i].state = ST_DELETED; dropud(i); n_dels[K_FD]++; if (vp_chance(&rng, 3, 4)) { close(R[i].fd); R[i].fd_closed = 1; } }
+		else vp_violation("loop:poll-del-failed-on-watched", "fd reg#%d fd=%d rc=%d (right after poll_mod)", i, R[i].fd, rd);
+	}
 }
 
 static long n_dup_adds, n_foreign_job_dels, n_sig_mods;
@@ -301,21 +311,23 @@ static void op_mod_sig(void)
 	if (rc == 0) R[i].prio = np; else vp_violation("loop:signal-mod-failed", "signal reg#%d rc=%d", i, rc);
 }
 
-static int depth;
+static int depth, noop_mask;
 static void do_random_ops(int inside)
 {
 	if (mode == M_FAIR || draining) return;   /* no new work while the final drain is judged */
+	{ const char *nm = getenv("VP_NOOP"); noop_mask = nm ? atoi(nm) : 0; }
 	if (inside) { if (depth > 0 || !vp_chance(&rng, 1, 3)) return; n_inside_ops++; }
 	depth++;
 	int n = inside ? 1 + (int)vp_u(&rng, 3) : 3 + (int)vp_u(&rng, 12);
 	for (int k = 0; k < n; k++) {
 		int r = (int)vp_u(&rng, 100);
 		vp_desc("%s op r=%d inside=%d iter=%ld", mode == M_TIMERS ? "timers" : "ledger", r, inside, iter);
+		if (getenv("VP_TRACE2")) fprintf(stderr, "it%ld OP r=%d inside=%d\n", iter, r, inside);
 		if (mode == M_TIMERS) {
 			if (r < 45) op_add_timer(); else if (r < 60) op_delete(); else if (r < 72) op_timer_query(); else if (r < 80) op_stale(); else if (r < 88) op_add_job(); else if (r < 94) op_add_fd(); else op_timer_query();
 		} else {
 			if (r < 18) op_add_job(); else if (r < 34) op_add_timer(); else if (r < 44) op_add_fd(); else if (r < 50) op_add_sig(); else if (r < 58) op_raise();
-			else if (r < 80) op_delete(); else if (r < 84) op_stale(); else if (r < 86) op_add_dup_fd(); else if (r < 88) op_job_del_foreign(); else if (r < 90) op_mod_sig(); else if (r < 92) op_mod_fd();
+			else if (r < 80) op_delete(); else if (r < 84) op_stale(); else if (r < 86) { if (!(noop_mask & 1)) op_add_dup_fd(); } else if (r < 88) { if (!(noop_mask & 2)) op_job_del_foreign(); } else if (r < 90) { if (!(noop_mask & 4)) op_mod_sig(); } else if (r < 92) op_mod_fd();
 			else if (r < 94 && inside) { qb_loop_stop(L); stop_by_callback = 1; n_stop_cb++; feat_stop = 1; }
 			else op_timer_query();
 		}
@@ -335,10 +347,18 @@ static int ledger_quiescent(void)
 	}
 	return 1;
 }
-static long n_eintr;
+static long n_eintr, n_queue_audits; static int audit_reported;
 int __wrap_epoll_wait(int epfd, struct epoll_event *ev, int maxev, int timeout)
 {
-	iter++; n_iters++;
+	iter++; n_iters++; if (getenv("VP_TRACE2")) fprintf(stderr, "it%ld EPOLL timeout=%d draining=%d\n", iter, timeout, draining);
+	/* structural invariant, looked at once per iteration at the loop's own quiescent point (it is about to poll): the number of
+	 * items a level says it has to do equals the length of its dispatch queue */
+	if (L && mode != M_FAIR) for (int p = 0; p < 3; p++) {
+		struct qb_loop_level *lv = &((struct qb_loop *)L)->level[p]; int len = qb_list_length(&lv->job_head);
+		n_queue_audits++;
+		if (lv->todo != len && !audit_reported) { audit_reported = 1; char k[96]; snprintf(k, sizeof k, "loop:todo-counter-differs-from-queue-length:%s", lv->todo > len ? "counter-too-high" : "counter-too-low");
+			vp_violation(k, "priority %d: todo=%d, %d items in the dispatch queue, at iteration %ld (%s)", p, lv->todo, len, iter, vp.cur_desc); }
+	}
 	if (jobs_recently) jobs_recently--;
 	int n = __real_epoll_wait(epfd, ev, maxev, 0);
 	if (mode == M_TIMERS) {
@@ -408,7 +428,7 @@ static void ledger_case(long kase)
 		do_random_ops(0);
 	}
 	/* final drain: everything that is due must have happened */
-	iter_budget = iter + 200; stop_by_callback = 0; draining = 1;
+	iter_budget = iter + 4000; stop_by_callback = 0; draining = 1;   /* enough turns for a long LOW queue (one item per three iterations); the loop is stopped as soon as the ledger is quiescent */
 	for (int d = 0; d < 4; d++) { in_run = 1; qb_loop_run(L); in_run = 0; }
 	for (int k = 0; k < nR; k++) {
 		if (R[k].state != ST_LIVE) continue;
@@ -503,7 +523,7 @@ static void fair_case(long kase)
 		vp_violation("loop:lower-priority-served-more-often", "iterations with a dispatch: %s=%ld %s=%ld over %ld iterations (%s)", p == 2 ? "HIGH" : "MED", sum[p], q == 1 ? "MED" : "LOW", sum[q], to - from, desc); }
 	int nb = fair_backlog[0] + fair_backlog[1] + fair_backlog[2];
 	if (nb >= 2) vp_distinct(vp_hash_bytes(99, desc, dn));
-	vp_count("waits_interrupted_by_a_signal", n_eintr); vp_count("items_judged_for_their_own_waiting_time", n_item_gaps_judged); vp_count("fair_dispatches_low", fair_total[0]); vp_count("fair_dispatches_med", fair_total[1]); vp_count("fair_dispatches_high", fair_total[2]);
+	vp_count("dispatch_queue_audits", n_queue_audits); vp_count("waits_interrupted_by_a_signal", n_eintr); vp_count("items_judged_for_their_own_waiting_time", n_item_gaps_judged); vp_count("fair_dispatches_low", fair_total[0]); vp_count("fair_dispatches_med", fair_total[1]); vp_count("fair_dispatches_high", fair_total[2]);
 	if (kase % 101 == 0) vp_sample("fair case=%ld %s iterations=%ld dispatches L/M/H=%ld/%ld/%ld iterations-with-dispatch L/M/H=%ld/%ld/%ld", kase, desc, iter, fair_total[0], fair_total[1], fair_total[2], sum[0], sum[1], sum[2]);
 	for (int s = 0; s < fair_nsrc; s++) { if (fair_fd[s] >= 0) { qb_loop_poll_del(L, fair_fd[s]); close(fair_fd[s]); } }
 	qb_loop_destroy(L); L = NULL;
@@ -521,7 +541,7 @@ int main(int argc, char **argv)
 	vp_count("deletes_of_probably_queued_items", n_del_queued); vp_count("stale_handle_uses", n_stale); vp_count("fd_numbers_reused", n_fd_reuse);
 	vp_count("ops_from_inside_callbacks", n_inside_ops); vp_count("stops_from_callbacks", n_stop_cb); vp_count("epoll_timeouts_checked", n_epoll_checks);
 	vp_count("negative_return_after_self_delete", feat_neg_after_selfdel); vp_count("duplicate_descriptor_adds_refused", n_dup_adds); vp_count("job_del_naming_a_timer", n_foreign_job_dels);
-	vp_count("signal_priority_changes", n_sig_mods); vp_count("descriptor_added_in_retiring_callback", n_readd_in_retire);
+	vp_count("signal_priority_changes", n_sig_mods); vp_count("descriptor_priority_change_then_delete", n_mod_then_del); vp_count("descriptor_added_in_retiring_callback", n_readd_in_retire);
 	vp_count("timer_queries", n_timer_queries); vp_count("usleep_calls_by_the_loop", n_usleep);
 	vp_finish();
 	return 0;
